@@ -21,7 +21,7 @@ ASSUMPTIONS = ['reference evaluator: unary +/- tightest, then * / \\ (left to ri
                'blanks between tokens are accepted; a trailing blank is not part of an expression "built from numbers, operators, signs and parentheses" (only the exception type is checked)',
                'extract positions 0..len (None = len); out-of-range positions are outside the statement']
 ALPHA = ['1', '2', '.5', '7', '+', '-', '*', '/', '\\', '(', ')', ' ']
-XALPHA = list('1.+-*/\\() a')
+XALPHA = list('1.+-*/\\() a\n')
 BOUNDS = {'quick': {'eval_len': 5, 'extract_len': 4}, 'thorough': {'eval_len': 6, 'extract_len': 5}}
 FLOORS = {'quick': {'eval:enum': 200000, 'eval:random': 5000, 'eval:garbage': 5000, 'extract:enum': 100000},
           'thorough': {'eval:enum': 3000000, 'eval:random': 100000, 'eval:garbage': 100000, 'extract:enum': 2000000}}
@@ -257,9 +257,15 @@ def check_extract(s, pos, opt, cls, ctx, api):
         if b != p:
             ctx.violation('extract-end', case, {'result': [a, b], 'pos': p, 'lookAhead': False})
     else:
-        pat = r'(\)[) \t\xa0\r\n]*)?\Z' if ws else r'\)*\Z'
-        if not re.match(pat, tail):
-            ctx.violation('extract-end', case, {'result': [a, b], 'pos': p, 'tail': tail})
+        # the look-ahead adjusted position: a `)` under the caret is taken together with the run of `)` and blanks after it
+        # (blank, tab, nbsp, CR, LF: the set the backward scan accepts inside an expression)
+        e = p
+        if s[p:p + 1] == ')':
+            e = p + 1
+            while e < len(s) and (s[e] == ')' or (ws and s[e] in ' \t\xa0\r\n')):
+                e += 1
+        if b != e:
+            ctx.violation('extract-end', case, {'result': [a, b], 'pos': p, 'tail': tail, 'adjusted_position': e})
     ctx.state('extract-look', 'moved' if b > p else 'same')
     if len(ctx.samples) < 4 and b > p and a < p - 2:
         ctx.sample({'extract': s, 'pos': pos, 'options': opt, 'range': [a, b]})
